@@ -170,8 +170,9 @@ def run(ctx):
         res.evaluations += 1
         res.nontrivial.add(repr(("dm", series, sorted(kw.items()))))
         try:
+            datalF = [np.asfortranarray(x) for x in datal]       # list members in Fortran order (transposed recordings)
             ms = [list(dtw_ndim.distance_matrix(d_, ndim=nd, compact=True, use_c=uc, parallel=False, **kw))
-                  for d_ in (data3, datal) for uc in (False, True)]
+                  for d_ in (data3, datal, datalF) for uc in (False, True)]
         except BaseException as e:
             if isinstance(e, (KeyboardInterrupt, SystemExit)):
                 raise
